@@ -55,7 +55,7 @@ const Matrix<double>& AutoCorrelationTransitionMatrix::getPij() const
     {
       for (size_t j = 0; j < vAutocorrel_.size(); ++j)
       {
-        pij_(i, j) = (i == j) ? vAutocorrel_[i] : (1 - vAutocorrel_[i]) / static_cast<double>(getNumberOfStates() - 1);
+        pij_(i, j) = Pij(i, j);
       }
     }
 
@@ -67,6 +67,24 @@ const Matrix<double>& AutoCorrelationTransitionMatrix::getPij() const
 
 const std::vector<double>& AutoCorrelationTransitionMatrix::getEquilibriumFrequencies() const
 {
+  // pi_i is proportional to 1 / (1 - lambda_i), written without divisions by small numbers:
+  size_t n = vAutocorrel_.size();
+  double sum = 0;
+  for (size_t i = 0; i < n; ++i)
+  {
+    double w = 1;
+    for (size_t k = 0; k < n; ++k)
+    {
+      if (k != i)
+        w *= 1 - vAutocorrel_[k];
+    }
+    eqFreq_[i] = w;
+    sum += w;
+  }
+  for (size_t i = 0; i < n; ++i)
+  {
+    eqFreq_[i] /= sum;
+  }
   return eqFreq_;
 }
 
